@@ -41,7 +41,7 @@ def nan_case(draw, variant):
     nt = draw(st.integers(1, 8))
     if draw(st.sampled_from([True, False, False])):
         n = draw(st.integers(1, max(1, nt)))  # fewer elements than threads
-    dtype = draw(st.sampled_from(["float64", "float64", "float32", "int64", "int32"]))
+    dtype = draw(st.sampled_from(["float64", "float64", "float32", "int64", "int32", "uint64", "uint8"]))
     if dtype.startswith("float"):
         vals = draw(st.lists(st.integers(-4096, 4096).map(lambda k: k / 8), min_size=n, max_size=n))
         mode = draw(st.sampled_from(["none", "scattered", "block", "block_misaligned", "all"]))
@@ -62,7 +62,14 @@ def nan_case(draw, variant):
         func = draw(st.sampled_from(["sum", "mean", "min", "max", "var", "std", "count"]))
     else:
         func = draw(st.sampled_from(["sum", "mean", "min", "max", "var", "std", "count"]))
-        if draw(st.sampled_from([True, False])) and func in ("sum", "min", "max"):
+        if dtype.startswith("uint"):
+            # unsigned values, for uint64 in the upper half of the range as well (beyond every signed 64-bit integer)
+            big = func in ("sum", "min", "max", "mean", "count") and draw(st.booleans())
+            top = ((2**64 - 1) if dtype == "uint64" else 255) // (n if func in ("sum", "mean") else 1) if big else 200 // (n if dtype == "uint8" and func in ("sum", "mean") else 1)
+            top = max(top, 1)
+            extra = [x for x in (2**63, 2**63 + 5, 2**64 - 1) if x <= top] or [top]
+            vals = draw(st.lists(st.one_of(st.integers(0, top), st.sampled_from(extra)), min_size=n, max_size=n))
+        elif draw(st.sampled_from([True, False])) and func in ("sum", "min", "max"):
             # integers that float64 cannot hold exactly (the sum stays inside the dtype)
             top = (2**62 if dtype == "int64" else 2**30) // (n if func == "sum" else 1)
             vals = draw(st.lists(st.one_of(st.integers(-top, top), st.sampled_from([top, -top, top - 1, 2**53 + 1 if dtype == "int64" and top > 2**53 else 1])),
